@@ -88,6 +88,10 @@ def make_case_db(scheme, cfg, profile, rnd):
         db = sc.make_db(profile, idsz, rnd, kw_len=kwlen)
         kws = list(db)
         i1, i2 = rnd.sample(range(len(kws)), 2)
+        if sum(profile) > 500:
+            # a large database: the keyword with the longest list and the one with the shortest are the two that are searched
+            i1 = max(range(len(kws)), key=lambda i: (profile[i], -i))
+            i2 = min(range(len(kws)), key=lambda i: (profile[i], i))
         near = kws[i1][:-1]
         if not near or near in db:
             continue
@@ -277,6 +281,15 @@ def main(argv_tier=None, replay_path=None):
             rnd.shuffle(longer)
             for k, q in enumerate(longer):                                  # every emitted sequence on some case of every scheme
                 per_case[k % len(cases)].append(q)
+        # one large database per scheme (size thresholds of caches / batching / in-place slicing are above the model's bounds)
+        if s != "CGKO06.SSE2":
+            big = sc.default_config(s)
+            if s == "CGKO06.SSE1":
+                big = dict(big, param_s=4096, param_dictionary_size=16)
+            cases.append((-5, big, [130, 260, 640, 1, 2], False))
+            longest = max((q for q in seqs if "p1" in q and "p2" in q), key=lambda q: (len(q), len(set(q))))
+            per_case.append([longest, ["p1"], ["p2", "p1"]] + ([q for q in seqs if len(q) == 3][:6] if tr == "thorough" else []))
+            ncases += 1
         for ci, (gi, cfg, p, byref) in enumerate(cases):
             n = len(per_case[ci])
             if byref and s == "CGKO06.SSE1":
